@@ -26,7 +26,7 @@ from sim.node import SimNode
 from spec import frames as F
 from spec import segments as SG
 
-BETA = {6: '6/v6-beta'}
+BETA = {6: '6/v6-beta'}       # default server-side beta set (Cassandra 4.x); per node: HSNode.beta_versions (C* 3.10/3.11: {5})
 
 
 # ------------------------------------------------------------------ stand-in compression
@@ -96,6 +96,7 @@ class HSNode(SimNode):
         SimNode.__init__(self, net, info)
         self.compress_responses = False      # compress answers once an algorithm is negotiated (a server may or may not)
         self.validate_startup_compression = True
+        self.beta_versions = set(BETA)       # versions this server only speaks with the USE_BETA flag (when it supports them at all)
         self.observer = None                 # callable(node, cstate, req) for every parsed request, before any rejection
 
     # -- per connection state
@@ -249,8 +250,8 @@ class HSNode(SimNode):
         if v not in self.supported_versions:
             self.reject_version(cstate, req)
             return
-        if v in BETA and not req['beta']:
-            body = F.body_error(v, 'protocol', 'Beta version of the protocol used (%s), but USE_BETA flag is unset' % BETA[v])
+        if v in self.beta_versions and not req['beta']:
+            body = F.body_error(v, 'protocol', 'Beta version of the protocol used (%d/v%d-beta), but USE_BETA flag is unset' % (v, v))
             net.send(cstate.conn, F.frame(v, 0, req['stream'], F.OPNUM['ERROR'], body))
             return
         reaction = None
